@@ -7,17 +7,26 @@ PROPERTY = dict(
     stubs='none',
     assumptions=[],
 )
+def shapes(nmax):
+    # one query per (length, absolute?, escaping shape): a base-3 digit per byte - plain / backslash-escaped / '$$'
+    out = []
+    for n in range(1, nmax + 1):
+        for sh in range(3 ** n):
+            out.append({'VF_N': n, 'VF_ABS': 0, 'VF_SHAPE': sh})
+            if sh % 3 == 0: out.append({'VF_N': n, 'VF_ABS': 1, 'VF_SHAPE': sh})
+    return out
+
 OBLIGATIONS = [
     dict(name='D1.escape-roundtrip', harness='C11/h_escape.cpp', entry='harness_escape', noinline=['lexWord'], expect_functions=['lexWord'], unwind=12,
          params_quick=[{'VF_N': n} for n in range(0, 4)], params_thorough=[{'VF_N': n} for n in range(0, 6)], unwind_thorough=16),
     dict(name='D2.records', harness='C11/h_records.cpp', entry='harness_records', tus=['lib/llvm/Support/StringRef.cpp'], noinline=['DependencyInfoParser5parseEv'], expect_functions=['DependencyInfoParser5parseEv'],
          unwind=12, params_quick=[{'VF_R': r, 'VF_L': l} for r in (1, 2) for l in (1, 2)]),
     dict(name='D3.handoff', harness='C11/h_handoff.cpp', entry='harness_handoff', models=['engine'],
-         tus=['lib/BuildSystem/ShellCommand.cpp', 'lib/BuildSystem/ExternalCommand.cpp', 'lib/BuildSystem/BuildKey.cpp', 'lib/BuildSystem/BuildDescription.cpp'],
+         tus=['lib/BuildSystem/ShellCommand.cpp', 'lib/BuildSystem/ExternalCommand.cpp', 'lib/BuildSystem/BuildKey.cpp', 'lib/BuildSystem/BuildDescription.cpp', 'lib/Core/MakefileDepsParser.cpp'],
          stubs=['BuildSystem11getDelegateEv$=stub_getDelegate', '^_ZN7llbuild4core18MakefileDepsParser5parseEv$=stub_parse', 'TaskInterface20discoveredDependencyERKNS0_7KeyTypeE$=stub_discovered',
                 '^_ZN4llvm3sys4path11is_absoluteERKNS_5TwineENS1_5StyleE$=stub_is_absolute', '^_ZN4llvm3sys4path6appendERNS_15SmallVectorImplIcEERKNS_5TwineES7_S7_S7_$=stub_path_append',
                 '^_ZN4llvm3sys2fs13make_absoluteERNS_15SmallVectorImplIcEE$=stub_make_absolute'],
          noinline=['ShellCommand37processMakefileDiscoveredDependencies'], expect_functions=['ShellCommand37processMakefileDiscoveredDependencies'],
-         stub_virtual=['ShellCommand(?!37)', 'ExternalCommand', '^_ZNK?7llbuild11buildsystem7Command(?!D)', 'JobDescriptor', 'MakefileDepsParser12ParseActions'], allow_external=['^_ZTV'], assert_external=['.'],
-         unwind=8, params_quick=[{'VF_N': n} for n in (1, 2, 3)], timeout=600, cbmc_flags=['--object-bits', '10']),
+         stub_virtual=['ShellCommand(?!37)', 'ExternalCommand', '^_ZNK?7llbuild11buildsystem7Command(?!D)', 'JobDescriptor', 'MakefileDepsParser12ParseActions', 'DepsActions5errorE'], allow_external=['^_ZTV'], assert_external=['.'],
+         unwind=8, params_quick=shapes(2), params_thorough=shapes(4), timeout=600, cbmc_flags=['--object-bits', '10'], cxxflags=['-include', '/verif/harness/C11/shim/pathmax.h']),
 ]
